@@ -48,7 +48,8 @@ def c01(ck):
     if ck.quick:
         consts = {"MaxSize": 4, "SampleSize": 6, "SampleN": 3000}
     else:
-        consts = {"MaxSize": 5, "SampleSize": 7, "SampleN": 60000}
+        # (all programs of 5 nodes would be 2.1 M with the grammar as it has grown: 4 exhaustively, 5 sampled)
+        consts = {"MaxSize": 4, "SampleSize": 5, "SampleN": 250000}
     r = gen_and_replay(ck, "GenC01", consts, timeout=1500)
     ck.exhaustive = True
     ck.extra["bounds"] = consts
